@@ -19,7 +19,8 @@ import TexcraftModel.Model.C01
 Only `kind % 10` counts in `2 …` and `5 0 …` (the tens digit of the kind of a read, like the
 hundreds of `pre`, tells the harness to go through a register alias).
 
-Reply: `S | T | V0 | … | V7`: the specification's outputs, one annotation per op (`L`/`G` effective
+Reply: `S | T | V0 | … | V7 | X` (`X` = the outputs of TeX's own specification `Spec.runTeX`, which differs
+from `S` only after a `\\let` from an undefined name, annotation `N`): the specification's outputs, one annotation per op (`L`/`G` effective
 scope of an assignment, `N` a `\let` to an undefined name, `-` otherwise; on an assignment to / a read
 of a variable followed by `:` and the names `c<n>`/`x<n>` that are register aliases of that variable
 in the specification's current environment; then `D<maxdepth>`), and the
@@ -152,7 +153,8 @@ def handle (line : String) : String :=
         let s := showOuts (Spec.init.run ops).2
         let t := " ".intercalate (annots Spec.init ops 0)
         let vs := (List.range 8).map (fun i => showOuts (run (variantOf i) VMState.init ops).2)
-        " | ".intercalate (s :: t :: vs)
+        let x := showOuts (Spec.init.runTeX ops).2
+        " | ".intercalate (s :: t :: vs ++ [x])
   | _ => "bad"
 
 end DrvC01
